@@ -137,6 +137,11 @@ func (c *CachedProvider) GetOpenStores() []spi.Store {
 // Close closes all stores created under this store provider.
 // For persistent store implementations, this does not delete any data in the underlying databases.
 func (c *CachedProvider) Close() error {
+	// The stores of the closed providers must not be handed out again by OpenStore.
+	c.lock.Lock()
+	c.openStores = make(map[string]*store)
+	c.lock.Unlock()
+
 	err := c.mainProvider.Close()
 	if err != nil {
 		return fmt.Errorf("failed to close main provider: %w", err)
